@@ -81,6 +81,7 @@ Fixpoint denote (r : rtree (T:=T)) : wl (rollv (T:=T)) :=
   | RFilter pred l =>
       wbind (wseq (map denote l))
             (fun rs => wret (map (fun v => if pred v then Some v else None) (flat_map (@live T) rs)))
+  | RFilterBy pred l => wbind (wseq (map denote l)) (fun rs => wret (filter_by pred rs))
   | RSubst expand append depth r' =>
       let src := denote r' in
       let fix expand_roll (left : nat) (rv : rollv (T:=T)) {struct left} : wl (rollv (T:=T)) :=
